@@ -475,6 +475,17 @@ def main(tier):
             continue
         cls = m[0] + "/" + (m[3] if m[0] == "pair" else (m[1] + m[2] + m[3]) if m[0] == "tree" else m[0])
         if not same(c, p):
+            # fixed-width C++ arithmetic vs Python's unbounded integers: when the mathematical value does not fit the static
+            # type the two languages necessarily part (C++ wraps / narrows, Python keeps the exact value)
+            try:
+                ref0 = exact(m[3], vals[0], vals[1]) if m[0] == "pair" else None
+            except Exception:  # noqa
+                ref0 = None
+            rt0 = canon(types[rn][n])
+            if ref0 is not None and not isinstance(ref0, complex) and is_int(rt0) and not representable(Fraction(ref0), rt0):
+                chk.fail("value/cpp-vs-python/result-outside-static-type", "%s with %s = %s (static type %s): the exact value %s does not fit; C++ gives %s, Python gives %s" % (
+                    e, [fn for fn, _ in fields], [repr(v) for v in vals], rt0, ref0, c[1], p[1]), where)
+                continue
             rt0 = canon(types[rn][n])
             if m[0] == "neg" and is_int(m[1]) and INT_RANGE[m[1]][0] == 0:
                 continue    # -a on an unsigned operand: the mathematical value is not representable in the static type
